@@ -211,12 +211,13 @@ def tlc(module, cfg=None, env=None, workers=None, timeout=900, simulate=None, de
     """
     cwd = cwd or SPEC
     cfg = cfg or (module + ".cfg")
-    md = metadir or os.path.join("/var/tmp", "notqmail-verif.tlcmeta.%d.%d" % (os.getpid(), int(time.time() * 1000) % 10**9))
+    import tempfile
+    md = metadir or tempfile.mkdtemp(prefix="notqmail-verif.tlcmeta.%d." % os.getpid(), dir="/var/tmp")
     cmd = ["java", "-XX:+UseParallelGC", "-Xss64m", "-Xmx" + heap]
     if dfs_queue:
         cmd.append("-Dtlc2.tool.queue.IStateQueue=StateDeque")
     cmd += ["-cp", JAVA_CP, "tlc2.TLC", "-metadir", md, "-config", cfg]
-    cmd += ["-workers", str(workers or "auto")]
+    cmd += ["-workers", str(workers or "auto"), "-noGenerateSpecTE"]
     if not deadlock:
         cmd.append("-deadlock")
     if simulate:
